@@ -3,8 +3,8 @@ from ..core import *
 from .. import harness, gen, pyref, gadgets as G, coq, model
 from ..curve import *
 
-VO = ['Props/C13.vo']
-FILES = ['Props/C13.v', 'Proofs/GadgetProofs.v', 'Proofs/WrapperProofs.v', 'Model/Wrapper.v', 'Proofs/Codec.v', 'Proofs/Elligator.v']
+VO = ['Props/C13.vo', 'Tie/Gadgets.vo', 'Props/C14.vo']
+FILES = ['Props/C13.v', 'Tie/Gadgets.v', 'Proofs/GadgetProofs.v', 'Proofs/WrapperProofs.v', 'Model/Wrapper.v', 'Proofs/Codec.v', 'Proofs/Elligator.v']
 
 def honest_cases(ctx, scale):
     rng = ctx.rng; pool = Pool('ark', rng.fork('pool'), n_rand=4 * scale)
